@@ -477,6 +477,174 @@ pub mod zc { use super::*; use ::derive_where::derive_where;
       let mut u = zb::S::<u8, NoTraits>::A(9); u.zeroize(); if let zb::S::A(v) = &u { assert_eq!(*v, 0); } }''')
 
 
+EXTRAS_SRC = r'''#![allow(warnings)]
+use std::fmt::Debug;
+use std::hash::{Hash, Hasher};
+use std::marker::PhantomData;
+
+pub struct NoTraits;
+
+fn h<T: Hash>(t: &T) -> Vec<u8> {
+    struct R(Vec<u8>);
+    impl Hasher for R { fn finish(&self) -> u64 { 0 } fn write(&mut self, b: &[u8]) { self.0.extend_from_slice(b) } }
+    let mut r = R(vec![]); t.hash(&mut r); r.0
+}
+
+/// the same observations on values of a `derive_where` type and on the corresponding values of a std-derive mirror type
+macro_rules! same {
+    ($what:expr, [$($a:expr),+], [$($m:expr),+]) => {{
+        let xs = vec![$($a),+]; let ms = vec![$($m),+];
+        assert_eq!(xs.len(), ms.len());
+        for i in 0..xs.len() { for j in 0..xs.len() {
+            assert_eq!(xs[i] == xs[j], ms[i] == ms[j], "{}: == on values {} {}", $what, i, j);
+            assert_eq!(xs[i] != xs[j], ms[i] != ms[j], "{}: != on values {} {}", $what, i, j);
+            assert_eq!(xs[i].partial_cmp(&xs[j]), ms[i].partial_cmp(&ms[j]), "{}: partial_cmp on values {} {}", $what, i, j);
+            assert_eq!(xs[i].cmp(&xs[j]), ms[i].cmp(&ms[j]), "{}: cmp on values {} {}", $what, i, j);
+            assert_eq!(h(&xs[i]) == h(&xs[j]), h(&ms[i]) == h(&ms[j]), "{}: hash on values {} {}", $what, i, j);
+        }
+            assert_eq!(format!("{:?}", xs[i]), format!("{:?}", ms[i]), "{}: Debug of value {}", $what, i);
+            assert_eq!(format!("{:#?}", xs[i]), format!("{:#?}", ms[i]), "{}: alternate Debug of value {}", $what, i);
+            assert_eq!(format!("{:?}", xs[i].clone()), format!("{:?}", ms[i].clone()), "{}: clone of value {}", $what, i);
+        }
+    }};
+}
+
+// ---- the macro reached through other paths than a plain `use derive_where::derive_where`
+pub mod p1 { use super::*;
+    #[::derive_where::derive_where(Clone, Debug, PartialEq, Eq, PartialOrd, Ord, Hash; T)] pub struct S<T, U>(pub T, pub PhantomData<U>); }
+pub mod p2 { use super::*; extern crate derive_where as dwc;
+    #[dwc::derive_where(Clone, Debug, PartialEq, Eq, PartialOrd, Ord, Hash; T)] pub enum S<T, U> { A(T), B { x: PhantomData<U> }, C } }
+pub mod p3 { use super::*; use ::derive_where::derive_where as dw;
+    #[dw(Clone, Debug; T)] #[derive_where(PartialEq, Eq, PartialOrd, Ord, Hash; T, (U,))] pub struct S<T, U>(pub T, pub PhantomData<U>); }
+pub mod p4 { use super::*;
+    #[derive_where::derive_where(Clone, Debug, PartialEq, Eq, PartialOrd, Ord, Hash; T)] #[derive_where(skip_inner(Debug))] pub struct S<T, U>(pub T, pub PhantomData<U>); }
+pub mod m { use super::*;
+    #[derive(Clone, Debug, PartialEq, Eq, PartialOrd, Ord, Hash)] pub struct S<T, U>(pub T, pub PhantomData<U>);
+    #[derive(Clone, Debug, PartialEq, Eq, PartialOrd, Ord, Hash)] pub enum E<T, U> { A(T), B { x: PhantomData<U> }, C } }
+
+// ---- fields / variants / helper attributes under #[cfg] and #[cfg_attr]
+pub mod c1 { use super::*; use ::derive_where::derive_where;
+    #[derive_where(Clone, Debug, PartialEq, Eq, PartialOrd, Ord, Hash; T)]
+    pub struct S<T, U> { pub a: T, #[cfg(any())] pub gone: NoTraits, #[cfg(all())] pub b: u8, pub p: PhantomData<U> }
+    #[derive_where(Clone, Debug, PartialEq, Eq, PartialOrd, Ord, Hash; T)]
+    pub enum E<T, U> { A(T), #[cfg(any())] Gone(NoTraits), B { #[cfg(any())] g: NoTraits, x: u8 }, #[cfg(all())] C(PhantomData<U>) }
+    #[derive_where(Clone, Debug, PartialEq; T)]
+    pub struct K<T, U> { pub a: T, #[cfg_attr(all(), derive_where(skip(Debug)))] pub secret: u8, #[cfg_attr(any(), derive_where(skip))] pub shown: u8, pub p: PhantomData<U> }
+}
+pub mod c1m { use super::*;
+    #[derive(Clone, Debug, PartialEq, Eq, PartialOrd, Ord, Hash)] pub struct S<T, U> { pub a: T, pub b: u8, pub p: PhantomData<U> }
+    #[derive(Clone, Debug, PartialEq, Eq, PartialOrd, Ord, Hash)] pub enum E<T, U> { A(T), B { x: u8 }, C(PhantomData<U>) } }
+
+// ---- items written by macro_rules!: captured `$t:ty`, `$e:expr`, `$f:ident` arrive as None-delimited groups
+macro_rules! mk { ($(#[$a:meta])+ $name:ident, $t:ty, $f:ident) => {
+    $(#[$a])+ pub struct $name<T, U> { pub $f: $t, pub t: T, pub p: PhantomData<U> } } }
+macro_rules! mke { ($(#[$a:meta])+ $name:ident, $e:expr, $t:ty) => {
+    $(#[$a])+ #[repr(i8)]
+    pub enum $name<T, U> { A(T) = $e, B, C($t, PhantomData<U>) = -3, D } } }
+pub mod g { use super::*; use ::derive_where::derive_where;
+    mk!(#[derive_where(Clone, Debug, PartialEq, Eq, PartialOrd, Ord, Hash; T)] M, (u8, i16), val);
+    mke!(#[derive_where(Clone, Debug, PartialEq, Eq, PartialOrd, Ord, Hash; T)] ME, 2 - 1, [u8; 2]);
+    mke!(#[derive_where(Clone, Debug, PartialEq, Eq, PartialOrd, Ord, Hash; T)] MF, 100 + 20, Option<u8>); }
+pub mod gm { use super::*;
+    mk!(#[derive(Clone, Debug, PartialEq, Eq, PartialOrd, Ord, Hash)] M, (u8, i16), val);
+    mke!(#[derive(Clone, Debug, PartialEq, Eq, PartialOrd, Ord, Hash)] ME, 2 - 1, [u8; 2]);
+    mke!(#[derive(Clone, Debug, PartialEq, Eq, PartialOrd, Ord, Hash)] MF, 100 + 20, Option<u8>); }
+
+// ---- `Self` in field types, defaults and inline bounds on parameters, other attributes around
+pub mod s1 { use super::*; use ::derive_where::derive_where;
+    #[derive_where(Clone, Debug, PartialEq, Eq, PartialOrd, Ord, Hash; T)]
+    pub struct Node<T, U> { pub next: Option<Box<Self>>, pub v: T, pub p: PhantomData<U> }
+    /// docs
+    #[derive_where(Clone, Debug, PartialEq, Eq, PartialOrd, Ord, Hash; T)]
+    #[non_exhaustive] #[must_use]
+    pub enum D<T: Clone = u8, U = (), const N: usize = 2> where T: Debug { #[doc = "a"] A([T; N]), #[non_exhaustive] B { #[doc(hidden)] x: PhantomData<U> } }
+    #[derive_where(Clone, Debug, PartialEq, Eq, PartialOrd, Ord, Hash; T)] #[repr(transparent)] pub struct Tr<T, U>(pub T, pub PhantomData<U>);
+    #[derive_where(Clone, Debug, PartialEq, Eq, PartialOrd, Ord, Hash; T)] #[repr(C, align(8))] pub struct Al<T, U>(pub T, pub PhantomData<U>);
+}
+pub mod s1m { use super::*;
+    #[derive(Clone, Debug, PartialEq, Eq, PartialOrd, Ord, Hash)] pub struct Node<T, U> { pub next: Option<Box<Self>>, pub v: T, pub p: PhantomData<U> }
+    #[derive(Clone, Debug, PartialEq, Eq, PartialOrd, Ord, Hash)] pub enum D<T: Clone = u8, U = (), const N: usize = 2> where T: Debug { A([T; N]), B { x: PhantomData<U> } }
+    #[derive(Clone, Debug, PartialEq, Eq, PartialOrd, Ord, Hash)] pub struct Tr<T, U>(pub T, pub PhantomData<U>);
+    #[derive(Clone, Debug, PartialEq, Eq, PartialOrd, Ord, Hash)] pub struct Al<T, U>(pub T, pub PhantomData<U>); }
+
+fn main() {
+    let pd = PhantomData::<u8>;
+    same!("macro path ::derive_where::derive_where", [p1::S(1u8, pd), p1::S(2u8, pd)], [m::S(1u8, pd), m::S(2u8, pd)]);
+    same!("macro path through `extern crate .. as`", [p2::S::A(1u8), p2::S::A(2u8), p2::S::B { x: pd }, p2::S::C], [m::E::A(1u8), m::E::A(2u8), m::E::B { x: pd }, m::E::C]);
+    same!("renamed import + second attribute under the plain name", [p3::S(1u8, pd), p3::S(2u8, pd)], [m::S(1u8, pd), m::S(2u8, pd)]);
+    { let a = p4::S(1u8, pd); assert!(a == a.clone() && a < p4::S(2u8, pd)); assert_eq!(format!("{:?}", a), "S"); }
+    same!("cfg'd fields", [c1::S { a: 1u8, b: 1, p: pd }, c1::S { a: 1u8, b: 2, p: pd }, c1::S { a: 0u8, b: 3, p: pd }], [c1m::S { a: 1u8, b: 1, p: pd }, c1m::S { a: 1u8, b: 2, p: pd }, c1m::S { a: 0u8, b: 3, p: pd }]);
+    same!("cfg'd variants", [c1::E::A(1u8), c1::E::B { x: 1 }, c1::E::B { x: 0 }, c1::E::C(pd)], [c1m::E::A(1u8), c1m::E::B { x: 1 }, c1m::E::B { x: 0 }, c1m::E::C(pd)]);
+    { let k = c1::K { a: 1u8, secret: 7, shown: 8, p: PhantomData::<NoTraits> };
+      assert_eq!(format!("{:?}", k), "K { a: 1, shown: 8, p: PhantomData<extras::NoTraits>, .. }", "cfg_attr'd helper attributes");
+      assert!(k == k.clone() && k != c1::K { a: 1u8, secret: 6, shown: 8, p: PhantomData }); }
+    same!("macro_rules struct with $t:ty field", [g::M { val: (1, 2), t: 1u8, p: pd }, g::M { val: (1, 3), t: 0u8, p: pd }], [gm::M { val: (1, 2), t: 1u8, p: pd }, gm::M { val: (1, 3), t: 0u8, p: pd }]);
+    same!("macro_rules enum with $e:expr discriminant", [g::ME::A(1u8), g::ME::B, g::ME::C([1, 2], pd), g::ME::C([1, 3], pd), g::ME::D], [gm::ME::A(1u8), gm::ME::B, gm::ME::C([1, 2], pd), gm::ME::C([1, 3], pd), gm::ME::D]);
+    same!("macro_rules enum with large $e:expr discriminant", [g::MF::A(1u8), g::MF::B, g::MF::C(None, pd), g::MF::C(Some(3), pd), g::MF::D], [gm::MF::A(1u8), gm::MF::B, gm::MF::C(None, pd), gm::MF::C(Some(3), pd), gm::MF::D]);
+    same!("Self in a field type", [s1::Node { next: None, v: 1u8, p: pd }, s1::Node { next: Some(Box::new(s1::Node { next: None, v: 0u8, p: pd })), v: 1u8, p: pd }],
+          [s1m::Node { next: None, v: 1u8, p: pd }, s1m::Node { next: Some(Box::new(s1m::Node { next: None, v: 0u8, p: pd })), v: 1u8, p: pd }]);
+    same!("parameter defaults, inline bounds, where clause, foreign attributes", [s1::D::<u8, u8, 2>::A([1, 2]), s1::D::A([1, 3]), s1::D::B { x: pd }], [s1m::D::<u8, u8, 2>::A([1, 2]), s1m::D::A([1, 3]), s1m::D::B { x: pd }]);
+    same!("repr(transparent)", [s1::Tr(1u8, pd), s1::Tr(2u8, pd)], [s1m::Tr(1u8, pd), s1m::Tr(2u8, pd)]);
+    same!("repr(C, align(8))", [s1::Al(1u8, pd), s1::Al(2u8, pd)], [s1m::Al(1u8, pd), s1m::Al(2u8, pd)]);
+    // an item inside a function body, with a lifetime and a const parameter
+    { use ::derive_where::derive_where;
+      #[derive_where(Clone, Debug, PartialEq, PartialOrd; T)] struct L<'a, T, U, const N: usize> where T: 'a { a: &'a [T; N], p: PhantomData<U> }
+      let arr = [1u8, 2]; let brr = [1u8, 3];
+      let x = L::<u8, NoTraits, 2> { a: &arr, p: PhantomData }; let y = L::<u8, NoTraits, 2> { a: &brr, p: PhantomData };
+      assert!(x == x.clone() && x != y && x < y); assert_eq!(format!("{:?}", x), "L { a: [1, 2], p: PhantomData<extras::NoTraits> }"); }
+    println!("EXTRAS-OK");
+}
+'''
+
+
+def run_extras(cfg):
+    """the glue rustc puts around the macro, which neither the model nor the generated probe items reach: the macro invoked
+    through qualified / renamed paths, fields, variants and helper attributes under #[cfg] / #[cfg_attr], items written by
+    macro_rules! (captured `$t:ty` / `$e:expr` arrive as None-delimited groups), `Self` in field types, parameter defaults and
+    inline bounds, foreign attributes, items inside a function body.  Every observation is compared with the STANDARD derive
+    on a mirror type (or with a literal where the standard derive has no counterpart)."""
+    import hashlib, gzip, pickle, shutil, tempfile, threading
+    src = EXTRAS_SRC
+    key = os.path.join(runner.CACHE, 'extras-' + hashlib.sha256((runner.repo_hash() + cfg + src).encode()).hexdigest()[:32] + '.pkl.gz')
+    res = None
+    with runner.lock(os.path.basename(key)):
+        if os.path.exists(key):
+            try:
+                with gzip.open(key, 'rb') as fh:
+                    res = pickle.load(fh)
+            except Exception:
+                res = None
+        if res is None:
+            scratch = tempfile.mkdtemp(prefix='dwextras-', dir=runner.SCRATCH_ROOT)
+            try:
+                os.makedirs(os.path.join(scratch, 'src'))
+                feats = CFGS[cfg]['features']
+                dep = 'derive-where = { path = "%s"%s }' % (runner.REPO, (', features = ["%s"]' % feats) if feats else '')
+                open(os.path.join(scratch, 'Cargo.toml'), 'w').write('[package]\nname = "extras"\nversion = "0.0.0"\nedition = "2021"\n[workspace]\n[dependencies]\n%s\n' % dep)
+                shutil.copy(runner.lockfile(), os.path.join(scratch, 'Cargo.lock'))
+                open(os.path.join(scratch, 'src', 'main.rs'), 'w').write(src)
+                env = dict(os.environ)
+                env.update(CARGO_TARGET_DIR=os.path.join(scratch, 'target'), CARGO_NET_OFFLINE='true', RUST_BACKTRACE='0')
+                cmd = ['cargo'] + (['+nightly'] if cfg == 'nightly' else []) + ['run', '--offline', '-q']
+                p = subprocess.run(cmd, cwd=scratch, env=env, stdout=subprocess.PIPE, stderr=subprocess.PIPE, text=True, timeout=3000)
+                errs = [l for l in p.stderr.split('\n') if l.startswith('error') or 'panicked' in l or l.startswith('assertion') or l.startswith('  left') or l.startswith(' right')]
+                res = (p.returncode, p.stdout[-500:], '\n'.join(errs)[:2000] or p.stderr[-800:])
+            finally:
+                shutil.rmtree(scratch, ignore_errors=True)
+            os.makedirs(runner.CACHE, exist_ok=True)
+            tmp = key + '.tmp%d.%d' % (os.getpid(), threading.get_ident())
+            with gzip.open(tmp, 'wb') as fh:
+                pickle.dump(res, fh)
+            os.replace(tmp, key)
+    rc, out, err = res
+    problems = []
+    if rc != 0 or 'EXTRAS-OK' not in out:
+        problems.append(dict(kind='compile' if 'panicked' not in err else 'std-mirror', scope='extras', cfg=cfg, case='extras',
+                             src='items reached through qualified macro paths, cfg / cfg_attr, macro_rules!, `Self` field types, defaults (harness/tieb.py EXTRAS_SRC)',
+                             errors=[l[:300] for l in err.split('\n')[:6]]))
+    return dict(cfg=cfg, items=19, ok=not problems), problems
+
+
 def run_crateopt(cfg):
     """C14: a `crate = path` option is used verbatim - relative, `crate::`, `self::`, `super::` paths and aliases must work"""
     import hashlib, gzip, pickle, shutil, tempfile, threading
